@@ -93,6 +93,11 @@ def scenarios(tier: str) -> list[tuple]:
         if tier == "thorough" or not slow:
             for p in two + three:
                 out.append((cfg, p, b2))
+        # a thread reads right after its own write while another thread's read is in flight: a
+        # stale refresh result must not overwrite the newer cached one (needs two pre-emptions)
+        for sh in range(12 if slow else 1):
+            out.append((cfg, (("get_all_trials",), ("finish", "get_all_trials")), 2) + (((sh, 12),) if slow else ()))
+        out.append((cfg, (("get_trial",), ("user_attr", "get_trial")), 2))
     # Part B: processes / threads at SQL-statement level on one SQLite file
     for cfg in SQL_CONFIGS:
         bound = 1 if tier == "quick" else 2
@@ -138,7 +143,8 @@ def build_programs(names: tuple) -> list[list[tuple]]:
 
 
 def scenario_task(task: tuple) -> dict:
-    cfg, names, bound = task
+    cfg, names, bound = task[:3]
+    shard = task[3] if len(task) > 3 else None
     backends.setup_determinism()
     part = Part()
     cache = False
@@ -191,10 +197,11 @@ def scenario_task(task: tuple) -> dict:
             key = f"{engine}|{cfg}|not-linearizable|{'+'.join('/'.join(p) for p in sorted(names))}"
             part.violation(key, rep)
 
-    st = explore(sc.execute, bound, on_exec, cache_states=cache, max_execs=60000)
+    st = explore(sc.execute, bound, on_exec, cache_states=cache, max_execs=60000, shard=shard)
     if st["capped"]:
         part.add("caps_hit")
-    part.add("scenarios")
+    if shard is None or shard[0] == 0:
+        part.add("scenarios")
     part.add("states", len({o[:2] for o in outcomes}))  # distinct observable outcomes
     part.add("traces_validated_against_impl", len(sc._seq_cache))
     if len(outcomes) == 1 and len({n for p in names for n in p} & {"get_trial", "get_n_trials", "get_best", "get_all_trials", "get_waiting"}) == 0 and names[0] != names[1 % len(names)]:
